@@ -210,8 +210,9 @@ CHECKS = {
               "nodes (hence every model Not(...) / negate produce): from_json(to_json(t)) evaluates like t on every assignment "
               "inside the leaf bounds; its core is nrt_node: the JSON written for the negation of a held condition (toJsonNeg, "
               "mirroring negate's case analysis: no atoms / grouped non-negative atoms / wrapped boolean atoms / not pushed) "
-              "reads back as the complement, for nodes of any class; the configurator classes and 'keeps defaults' are tied "
-              "by correspondence + oracle only; "
+              "reads back as the complement, for nodes of any class; defaults_kept — whenever the configurator's class map "
+              "reads back what a cc.Any / cc.Xor node wrote, the model it builds carries the same default; evaluation and "
+              "default priorities of the configurator classes are tied by correspondence + oracle only; "
               "id_written_iff — for every class an explicitly given id is written and a generated one is not. Tie: to_json "
               "(through json.dumps/loads) and from_json compared with the model for every class incl. configurators; oracle: "
               "leaves and bounds, evaluation on assignments, explicit ids kept, no id emitted for generated ones, defaults and "
